@@ -1,6 +1,7 @@
 (* C13 — cross-thread queue: no loss, duplication, reordering or missed wake-up.
    For ANY number of producers, any number of pushes each, and EVERY interleaving (schedule) of
-   their atomic steps with the consumer's. *)
+   their atomic steps with the consumer's - a consumer that, with an entry in hand, pops again
+   ([Consumer]) or stops and goes back to its event loop ([ConsumerStop]) as it pleases. *)
 From Coq Require Import List NArith Bool Arith.
 Require Import QueueModel QueueLemmas.
 Import ListNotations.
@@ -11,19 +12,20 @@ Theorem C13_fifo : forall progs sched,
   let st := run sched (init progs) in
   out st = map ival (firstn (popped st) (items st)) /\ popped st <= length (items st).
 Proof.
-  intros progs sched st. destruct (inv_run sched (init progs) (inv_init progs)) as [H1 H2 _ _ _ _ _].
+  intros progs sched st. destruct (inv_run sched (init progs) (inv_init progs)) as [H1 H2 _ _ _ _ _ _].
   split; assumption.
 Qed.
 Print Assumptions C13_fifo.
 
-(* no missed wake-up: whenever the consumer is parked while an entry is queued, the readiness
-   notification is pending, or the producer of the oldest queued entry has still to write it *)
+(* no missed wake-up: whenever the consumer is parked - because pop() found nothing, or because it
+   stopped draining with entries still queued - while an entry is queued, the readiness notification
+   is pending, or the producer of the oldest queued entry has still to write it *)
 Theorem C13_no_missed_wakeup : forall progs sched,
   let st := run sched (init progs) in
   cst st = COut -> forall it, nth_error (items st) (popped st) = Some it ->
   ev st > 0 \/ written it = false.
 Proof.
-  intros progs sched st. destruct (inv_run sched (init progs) (inv_init progs)) as [_ _ _ _ _ _ H].
+  intros progs sched st. destruct (inv_run sched (init progs) (inv_init progs)) as [_ _ _ _ _ _ H _].
   exact H.
 Qed.
 Print Assumptions C13_no_missed_wakeup.
@@ -44,12 +46,30 @@ Print Assumptions C13_all_delivered.
 Definition old_witness : list actor :=
   [Producer 0; Producer 0; Producer 0; Consumer; Consumer; Consumer; Consumer;
    Producer 1; Producer 1; Producer 1; Consumer; Consumer; Consumer; Consumer].
+Definition now_schedule : list actor := old_witness ++ [Consumer; Consumer; Consumer; Consumer; Consumer; Consumer].
 Theorem C13_old_order_refuted :
   let st := run_old old_witness (init [[1%N]; [2%N]]) in
   quiescent st = true /\ popped st < length (items st).
 Proof. vm_compute. split; [reflexivity|apply le_n]. Qed.
 Print Assumptions C13_old_order_refuted.
 
+(* the code between the first fix and the fourth round's (every pop() drains the notification, then looks) does not
+   have it for a consumer that stops early: one producer, two pushes, the consumer takes one entry and goes back to its
+   event loop - the second entry is queued and written, the consumer parked, the notification drained *)
+Definition partial_witness : list actor :=
+  [Producer 0; Producer 0; Producer 0; Producer 0; Producer 0; Producer 0; Consumer; Consumer; Consumer; ConsumerStop].
+Theorem C13_drain_on_every_pop_refuted :
+  let st := run_drain_first partial_witness (init [[1%N; 2%N]]) in
+  cst st = COut /\ ev st = 0 /\ popped st = 1 /\ map written (items st) = [true; true].
+Proof. vm_compute. repeat split; reflexivity. Qed.
+Print Assumptions C13_drain_on_every_pop_refuted.
+
+Example C13_ex_partial_drain_now_leaves_notification :
+  let st := run [Producer 0; Producer 0; Producer 0; Producer 0; Producer 0; Producer 0; Consumer; Consumer; ConsumerStop]
+                (init [[1%N; 2%N]]) in
+  cst st = COut /\ ev st = 2 /\ popped st = 1 /\ out st = [1%N].
+Proof. vm_compute. repeat split; reflexivity. Qed.
+
 Example C13_ex_same_schedule_now_delivers :
-  out (run old_witness (init [[1%N]; [2%N]])) = [1%N; 2%N].
+  out (run now_schedule (init [[1%N]; [2%N]])) = [1%N; 2%N].
 Proof. vm_compute. reflexivity. Qed.
